@@ -52,8 +52,11 @@ inductive Resp
   | batch (items : List Item) (ts : Nat)
   deriving DecidableEq, Repr, Inhabited
 
-/-- durable writes, in the order issued -/
-inductive Wr | pending | scan
+/-- durable writes, in the order issued, with the value written: `pending q` = `Save()` of the
+carry-over queue (`/sequencer/pendingTxs`), `scan n` = `Put` of `/sequencer/lastScannedDAHeight` -/
+inductive Wr
+  | pending (q : List Entry)
+  | scan (n : Nat)
   deriving DecidableEq, Repr
 
 def defaultMax : Nat := 1500000
@@ -166,7 +169,7 @@ def getNextBatch (cfg : Cfg) (da : Nat → Fetch) (s : St) (r : Req) : Out :=
     match r.last.getLast? with
     | some id =>
       match splitHeight id with
-      | none => ⟨{ s with queue := p.queue, pendP := some p.queue }, .errLastHeight, [.pending]⟩
+      | none => ⟨{ s with queue := p.queue, pendP := some p.queue }, .errLastHeight, [Wr.pending p.queue]⟩
       | some e =>
         let lastDA := if e > pos then e else pos
         let next := if e > pos then e + 1 else pos
@@ -174,16 +177,26 @@ def getNextBatch (cfg : Cfg) (da : Nat → Fetch) (s : St) (r : Req) : Out :=
         let q2 := pushQ p.queue sc.pushed
         ⟨{ queue := q2, pendP := some q2, scanP := some sc.next },
           (if (p.taken ++ sc.taken).isEmpty then .nil else .batch (p.taken ++ sc.taken) sc.ts),
-          [.pending] ++ (if sc.pushed.isSome then [.pending] else []) ++ [.scan]⟩
+          ([Wr.pending p.queue] ++ (if sc.pushed.isSome then [Wr.pending q2] else []) ++ [Wr.scan sc.next] : List Wr)⟩
     | none =>
       let sc := scanQ p.queue cfg.drift da max pos (cfg.drift + 2) pos p.size p.ts
       let q2 := pushQ p.queue sc.pushed
       ⟨{ queue := q2, pendP := some q2, scanP := some sc.next },
         (if (p.taken ++ sc.taken).isEmpty then .nil else .batch (p.taken ++ sc.taken) sc.ts),
-        [.pending] ++ (if sc.pushed.isSome then [.pending] else []) ++ [.scan]⟩
+        ([Wr.pending p.queue] ++ (if sc.pushed.isSome then [Wr.pending q2] else []) ++ [Wr.scan sc.next] : List Wr)⟩
 
 /-- a new `Sequencer` object on the durable image (`NewPersistentPendingTxs` → `Load`) -/
 def restart (s : St) : St := { s with queue := s.pendP.getD [] }
+
+/-- one durable write applied to the durable image -/
+def applyWr (s : St) : Wr → St
+  | .pending q => { s with pendP := some q }
+  | .scan n => { s with scanP := some n }
+
+/-- a crash inside a call: the process dies when the first `k` durable writes `ws` of the call are
+on disk (`k ≥ ws.length`: all of them, the crash hits between the last write and the `return`); the
+call's answer never reaches the caller; a new `Sequencer` object starts on that image -/
+def crashAt (s : St) (ws : List Wr) (k : Nat) : St := restart ((ws.take k).foldl applyWr s)
 
 def Resp.items : Resp → List Item
   | .batch items _ => items
